@@ -24,6 +24,7 @@
 #include "dfs_catalog.h"  // for Catalog
 #include "dfs_format.h"   // for Format
 #include "dfstypes.h"     // for sector_count_type
+#include "verif_hooks.h"  // for BEEBTOOLS_VERIF_TRACE
 
 namespace DFS
 {
@@ -66,8 +67,10 @@ class Volume
 
      std::optional<SectorBuffer> read_block(unsigned long lba) override
        {
+	 BEEBTOOLS_VERIF_TRACE("V %lu %lu %lu request\n", origin_, len_, lba);
 	 if (lba >= len_)
 	   return std::nullopt;
+	 BEEBTOOLS_VERIF_TRACE("V %lu %lu %lu forwarded\n", origin_, len_, lba);
 	 return underlying_.read_block(origin_ + lba);
        }
 
